@@ -49,7 +49,7 @@ def build(rng, tier):
     # IMPORTS are followed all the same
     if ns > 1 and rng.random() < 0.2:
         m = rng.choice([x for x in mods if x != scn.get('folded')])
-        scn['sources'][0][m] = rng.choice(['synerr', 'lexerr', 'truncated', 'empty', 'comments', 'untyped'])
+        scn['sources'][0][m] = rng.choice(['synerr', 'lexerr', 'truncated', 'empty', 'comments', 'untyped', 'macro_open', 'choice_open'])
         scn['sources'][rng.randrange(1, ns)][m] = 'ok'
         scn['broken_first_copy'] = m
     # a file named unlike its module, whose module imports the file's own name (and is requested by it)
